@@ -362,9 +362,10 @@ def windows(t):
     w = {}
     for p, content in t.outside_root().items():
         if not content.startswith(b'SECRET-'): continue
-        span = content if content[23:24] == b'-' else content[:23]
-        for i in range(7, len(span) - W + 1):      # from the first hex digit on: pure hash text
-            w.setdefault(span[i:i + W], set()).add(p)
+        spans = getattr(t, '_c01_spans', {}).get(p) or [content if content[23:24] == b'-' else content[:23]]      # `_c01_spans`: the marked stretches of a file that is mostly filler
+        for span in spans:
+            for i in range(7, len(span) - W + 1):      # from the first hex digit on: pure hash text
+                w.setdefault(span[i:i + W], set()).add(p)
     t._c01_windows = w
     t._c01_memo = {}
     return w
